@@ -69,7 +69,7 @@ def run_case(idx, rng, P, rep):
     # ---- hierarchy: list of classes, each with parents chosen among earlier ones
     shape = rng.choice(['chain', 'chain', 'diamond', 'tree'])
     classes = []
-    n_cls = rng.randint(2, 5)
+    n_cls = rng.randint(2, 5) if shape != 'diamond' else rng.randint(4, 6)
     for ci in range(n_cls):
         if ci == 0:
             bases = (param.Parameterized,)
@@ -78,7 +78,8 @@ def run_case(idx, rng, P, rep):
         elif shape == 'diamond' and ci == 3:
             bases = (classes[1], classes[2])
         elif shape == 'diamond':
-            bases = (classes[0],) if ci in (1, 2) else (classes[-1],)
+            # (classes created after the one that closes the diamond may hang below one of its branches)
+            bases = (classes[0],) if ci in (1, 2) else ((classes[2],) if ci == 4 and rng.random() < 0.6 else (classes[-1],))
         else:
             bases = (rng.choice(classes),)
         ns = {}
